@@ -202,6 +202,7 @@ type simDgram struct {
 	data  []byte
 	msg   *simMsg // nil for non-STUN
 	dup   bool
+	srcControlling bool // role of the emitting agent at the moment of emission
 }
 
 func (d *simDgram) String() string {
@@ -318,6 +319,9 @@ func (w *simWorld) emit(src *simSock, dst netip.AddrPort, b []byte) {
 	w.nextID++
 	d := &simDgram{id: w.nextID, src: src, srcAt: src.pub, dst: dst, data: append([]byte{}, b...)}
 	d.msg = simDecode(b, w.nomAttr)
+	if ag := w.agents[src.side]; ag != nil && ag.a != nil {
+		d.srcControlling = ag.a.isControlling.Load()
+	}
 	w.inflight = append(w.inflight, d)
 	w.log = append(w.log, simEvent{step: w.step, kind: "emit", side: src.side, d: d})
 	w.counts["emit"]++
